@@ -25,6 +25,7 @@ CONSTANTS
   WellBehaved, \* TRUE: used <= last grant (C06 consumer)
   Lrsn0,
   Recharges,   \* TRUE: recharge notifications
+  Traffic,     \* numbers of unrelated one-time creates (they advance the global record counter)
   EmitOneIn    \* behaviour emission: print one transition in EmitOneIn (seeded by -seed)
 
 VARIABLES st, h, hist, nid, labels, flags
@@ -63,7 +64,7 @@ Init ==
   /\ \E f \in [Keys -> AcctChoices] :
        /\ st = [acct |-> [k \in Keys |-> [quota |-> f[k][1], cost |-> f[k][2]]], ue |-> EmptyFn, lrsn |-> Lrsn0]
        /\ h = HInit([k \in Keys |-> [quota |-> f[k][1], cost |-> f[k][2]]])
-       /\ hist = << [a |-> "setup", lrsn0 |-> Lrsn0, wb |-> WellBehaved, ues |-> Subs,
+       /\ hist = << [a |-> "setup", lrsn0 |-> Lrsn0, wb |-> WellBehaved, ues |-> Subs \cup (IF Traffic = {} THEN {} ELSE {"9"}),
                      accts |-> {[u |-> KeyU(k), rg |-> KeyG(k), quota |-> f[k][1], cost |-> ToString(f[k][2])] : k \in Keys}] >>
   /\ nid = 0 /\ labels = EmptyFn /\ flags = {}
 
@@ -149,7 +150,10 @@ DoRelease ==
     /\ UsageOK(t.u, tpl, tg)
     /\ LET us  == Stamp(tpl, 1, nid)
            pre == st
-           a   == [u |-> t.u, ref |-> t.ref, usage |-> us, trig |-> TrigSeq(tg)]
+           sel == IF t.u \in Dom(st.ue) /\ t.ref \in Dom(st.ue[t.u].cdr)
+                    THEN st.ue[t.u].recs[st.ue[t.u].cdr[t.ref]] ELSE [pad |-> 0, conts |-> <<>>]
+           a   == [u |-> t.u, ref |-> t.ref, usage |-> us, trig |-> TrigSeq(tg),
+                   split |-> Size(sel) + CountC(tpl, 1) > Limit]
            r   == Release(st, a)
            ok  == IF DEV_Release400 THEN 400 ELSE 204
            h2  == IF r.st = pre /\ r.resp.status = 400 /\ ~(t.u \in Dom(st.ue) /\ t.ref \in Dom(st.ue[t.u].cdr))
@@ -171,6 +175,18 @@ DoRecharge ==
        /\ hist' = Append(hist, [a |-> "recharge", u |-> u, rg |-> g])
        /\ UNCHANGED <<h, nid, labels>>
 
+\* unrelated traffic: k one-time events of subscriber "9" (each takes a record sequence number)
+RECURSIVE CreateN(_, _)
+CreateN(s, k) ==
+  IF k = 0 THEN s
+  ELSE CreateN(Create(s, [u |-> "9", supi |-> Supi("9"), sub |-> "9", c |-> "t", onetime |-> TRUE, usage |-> <<>>,
+                          chid |-> 0, pad |-> 0, notify |-> "n/9/t"]).st, k - 1)
+DoTraffic ==
+  \E k \in Traffic :
+     /\ st' = CreateN(st, k) /\ flags' = StateFlags(CreateN(st, k), h)
+     /\ hist' = Append(hist, [a |-> "traffic", u |-> "9", n |-> k])
+     /\ UNCHANGED <<h, nid, labels>>
+
 DoTopUp ==
   \E u \in Subs, g \in RGs, amt \in TopUps :
        LET a == [u |-> u, rg |-> g, amt |-> amt]
@@ -181,7 +197,7 @@ DoTopUp ==
           /\ UNCHANGED <<nid, labels>>
 
 Next == /\ Steps < MaxSteps
-        /\ (DoCreate \/ DoUpdate \/ DoRelease \/ DoRecharge \/ DoTopUp)
+        /\ (DoCreate \/ DoUpdate \/ DoRelease \/ DoRecharge \/ DoTopUp \/ DoTraffic)
 
 Spec == Init /\ [][Next]_vars
 
@@ -191,13 +207,16 @@ View == <<st, h, labels, flags, Steps>>
 EmitBehaviour == IF RandomElement(1..EmitOneIn) = 1 THEN PrintT(<<"VF-BEH", ToJson(hist')>>) ELSE TRUE
 
 \* ---- invariants (one per property clause) ----
-InvConservation   == "C01.conservation" \notin flags
-InvNoOverdraft    == "C06.no_overdraft" \notin flags
-InvGrantAffordable == "C06.grant_affordable" \notin flags
-InvExactlyOnce    == "C02.exactly_once" \notin flags
-InvRecordIdentity == "C02.record_identity" \notin flags
-InvRefUnique      == "C10.ref_unique" \notin flags
-InvRejectionNoEffect == "C12.rejection_no_effect" \notin flags
+\* a violated invariant prints the offending behaviour as JSON so that it can be replayed into the code
+Holds(tag) == tag \notin flags \/ (PrintT(<<"VF-CEX", ToJson(hist)>>) /\ FALSE)
+InvConservation   == Holds("C01.conservation")
+InvNoOverdraft    == Holds("C06.no_overdraft")
+InvGrantAffordable == Holds("C06.grant_affordable")
+InvExactlyOnce    == Holds("C02.exactly_once")
+InvRecordIdentity == Holds("C02.record_identity")
+InvRefUnique      == Holds("C10.ref_unique")
+InvRejectionNoEffect == Holds("C12.rejection_no_effect")
 InvRecordWithinLimit ==
-  \A u \in Dom(st.ue) : \A i \in 1..Len(st.ue[u].recs) : Size(st.ue[u].recs[i]) <= Limit
+  (\A u \in Dom(st.ue) : \A i \in 1..Len(st.ue[u].recs) : Size(st.ue[u].recs[i]) <= Limit)
+  \/ (PrintT(<<"VF-CEX", ToJson(hist)>>) /\ FALSE)
 =============================================================================
